@@ -44,7 +44,12 @@ BadPaths == {<<"slash", "backslash">>, <<"slash", "backslash", "host">>, <<"slas
              <<"slash", "dot", "slash", "backslash", "host">>, <<"slash", "tab", "slash", "host">>, <<"slash", "host">>}
 QueryTails == UNION {[1..k -> {"slash", "dot", "host"}] : k \in 0..TailLen}
 OwnTails == UNION {[1..k -> {"slash", "dot", "backslash", "host"}] : k \in 0..OwnTailLen} \cup {<<"slash", "host", "tab", "host">>, <<"slash", "slash", "host">>}
+\* an absolute URL naming THIS server (as a forward proxy or a bookmark would) followed by a path of its own
+OwnAbsTails == UNION {[1..k -> {"slash", "backslash", "host", "dot", "tab"}] : k \in 0..4}
+OwnAbsPrefixes == {<<"https", "colon", "slash", "slash", "ownhost">>, <<"https", "colon", "slash", "slash", "ownhost", "colon", "port443">>,
+                   <<"slash", "slash", "ownhost">>, <<"https", "colon", "ownhost">>}
 InC17(r) == \/ \E s \in SeqsUpTo(MaxLen) \cup SmallSeqs : r = [handler |-> "login", dest |-> s]
+            \/ \E pfx \in OwnAbsPrefixes, t \in OwnAbsTails : r = [handler |-> "login", dest |-> pfx \o t]
             \/ \E o \in OwnPaths, t \in OwnTails : r = [handler |-> "login", dest |-> <<"slash", o>> \o t]
             \/ \E p \in BadPaths, t \in QueryTails : r = [handler |-> "login", dest |-> p \o <<"qmark">> \o t]
             \/ \E h \in RedirectingHandlers, s \in SeqsUpTo(2) : r = [handler |-> h, dest |-> s]
